@@ -425,6 +425,37 @@ def check_area_obs(ctx, a, ai, spec, obs, cases, agree):
     for i in range(npts):
         if cells_by_point[i]["bucket"] != "FAIL":
             cases["bucket"].append("(%s, %s, %s, %d, %d)" % (an, fhex(uh(m["x"][i])), fhex(uh(m["y"][i])), m["xi"][i], m["yi"][i]))
+    # --- two bucket resamplers on the same dask lon/lats (this area, a partner area of another CRS) in ONE dask.compute
+    if "bucket_joint" in obs:
+        j = obs["bucket_joint"]
+        jr = {"area": dict(core, partner=spec["partner"], lonlat_all=list(zip(obs["lons"], obs["lats"]))), "module": "bucket_joint"}
+        if "error" in j:
+            ctx.add_failure("C18.bucket.joint_compute.exception", "two BucketResamplers computed in one dask.compute raised %s" % j["error"], jr)
+        else:
+            pa, pn = spec["_pa"], "a%d" % spec["_partner"]
+            mb = obs["bucket"]
+            streams = [("this area", a, an, mb["x"], mb["y"], j["xa"], j["ya"], mb["xi"], mb["yi"]),
+                       ("partner area", pa, pn, j["px"], j["py"], j["xb"], j["yb"], j["xb0"], j["yb0"])]
+            for label, ar, arn, xs_, ys_, xi_, yi_, xi0, yi0 in streams:
+                nbad = 0
+                for i in range(npts):
+                    x, y = uh(xs_[i]), uh(ys_[i])
+                    cell = None if (xi_[i] == -1 and yi_[i] == -1) else ((yi_[i], xi_[i]) if xi_[i] >= 0 and yi_[i] >= 0 else "bad")
+                    kind = "inconsistent" if cell == "bad" else verdict(ar, cell, x, y, tol=tol_for(ar, x, y))
+                    if kind is None and (xi_[i], yi_[i]) != (xi0[i], yi0[i]):
+                        kind = "differs_from_standalone"
+                    ctx.count("bucket_joint/" + ("self" if ar is a else "partner"))
+                    ctx.case(("bj", ai, arn, xs_[i], ys_[i]), nontrivial=category(ar, x, y) != "interior")
+                    if kind:
+                        nbad += 1
+                        if nbad == 1:
+                            ctx.add_failure("C18.bucket.joint_compute.%s" % kind,
+                                            "two BucketResamplers built from the same dask lon/lats (targets %s %s and %s %s), x_idxs/y_idxs of both evaluated in ONE "
+                                            "dask.compute: the %s attributes lon/lat (%r, %r), its projected point (%r, %r), to %s; evaluated on its own it gives "
+                                            "(x, y) index (%d, %d): %s" % (a.crs, a.ext, pa.crs, pa.ext, label, uh(obs["lons"][i]), uh(obs["lats"][i]), x, y, cell,
+                                                                         xi0[i], yi0[i], kind), dict(jr, point=i, which=label, kind=kind))
+                        continue
+                    cases["bucket"].append("(%s, %s, %s, %d, %d)" % (arn, fhex(x), fhex(y), xi_[i], yi_[i]))
     # --- ll2cr
     m = obs["ll2cr"]
     ll_ok = True
@@ -571,6 +602,10 @@ def build_request(ctx, areas):
         n = len(xy) + len(MALFORMED)
         s["scalar"] = sorted(set(ctx.rng.sample(range(len(xy)), min(12, len(xy))) + list(range(len(xy), n))))
         s["chunks"] = ctx.rng.choice([4096, 7, 50])
+        partner = next((b for b in areas[k + 1:] + areas[:k] if b.crs != a.crs), None)
+        if partner is not None:
+            s["partner"] = partner.spec()
+            s["_partner"] = areas.index(partner)
         if k % 2 == 0 or a.tag.startswith("dyadic"):
             t = target_for(ctx, a, k)
             s["target"] = t.spec()
@@ -586,7 +621,8 @@ def run(ctx):
                 "interior, far outside, and NaN/inf/1e30/out-of-range lon/lat; all five modules run through their public entry points on the "
                 "same lon/lat (plus projection-coordinate and scalar entry points of the area, masked/filled images, ImageContainerQuick on an "
                 "overhanging half-pixel-shifted target); utils.generate_quick_linesample_arrays + ImageContainer.get_array_from_linesample on small "
-                "sources with targets k*65536 (+- a few) pixels away in each direction and on sources of width/height 65535 / 65536; the deprecated aliases get_xy_from_lonlat / lonlat2colrow / get_xy_from_proj_coords must return exactly "
+                "sources with targets k*65536 (+- a few) pixels away in each direction and on sources of width/height 65535 / 65536; two BucketResamplers built from the same dask lon/lats with targets of different CRSs have their index arrays evaluated in ONE "
+                "dask.compute and are compared with the oracle and with stand-alone evaluation; the deprecated aliases get_xy_from_lonlat / lonlat2colrow / get_xy_from_proj_coords must return exactly "
                 "what the lookup they stand for returns.  Samples are picked by a fixed plan (one per stream/class/CRS).  A case is non-trivial when the point is not strictly interior far from a border "
                 "(edge band, border line, outside, non-finite); distinct = distinct (area, lon, lat)")
     areas = gen_areas(ctx)
@@ -597,7 +633,10 @@ def run(ctx):
         s.update({"xy": [], "lonlat": [], "scalar": [], "ql_targets": [t.spec() for t in ts], "_ql": ts})
         areas.append(a)
         specs.append(s)
-    res = ctx.impl("c18", {"areas": [{k: v for k, v in s.items() if k != "_ql"} for s in specs]})["areas"]
+    for s in specs[:n_main]:
+        if "_partner" in s:
+            s["_pa"] = areas[s["_partner"]]
+    res = ctx.impl("c18", {"areas": [{k: v for k, v in s.items() if not k.startswith("_")} for s in specs]})["areas"]
     cases = {k: [] for k in CHK}
     agree = [0]
     for ai, (a, spec, obs) in enumerate(zip(areas, specs, res)):
@@ -636,10 +675,19 @@ def replay(ctx, data):
     if not spec:
         return True
     a = Area(next((k for k, v in CRS.items() if v == spec["proj"]), "longlat"), [uh(e) for e in spec["extent"]], spec["w"], spec["h"], "replay")
+    if case.get("module") == "bucket_joint":
+        ps = spec["partner"]
+        pa = Area(next((k for k, v in CRS.items() if v == ps["proj"]), "longlat"), [uh(e) for e in ps["extent"]], ps["w"], ps["h"], "replay-partner")
+        pts = spec.pop("lonlat_all")
+        spec.update({"xy": [], "lonlat": [list(p) for p in pts], "scalar": [], "_pa": pa, "_partner": 1})
+        obs = ctx.impl("c18", {"areas": [{k: v for k, v in spec.items() if not k.startswith("_")}]})["areas"][0]
+        n0 = len(ctx.failures)
+        check_area_obs(ctx, a, 0, spec, obs, {k: [] for k in CHK}, [0])
+        return any(f.key.startswith("C18.bucket.joint_compute") for f in ctx.failures[n0:])
     if case.get("module") == "quick_linesample":
         spec.update({"xy": [], "lonlat": [], "scalar": []})
         spec["_ql"] = [Area(a.crs, [uh(e) for e in t["extent"]], t["w"], t["h"], "replay") for t in spec["ql_targets"]]
-        obs = ctx.impl("c18", {"areas": [{k: v for k, v in spec.items() if k != "_ql"}]})["areas"][0]
+        obs = ctx.impl("c18", {"areas": [{k: v for k, v in spec.items() if not k.startswith("_")}]})["areas"][0]
         n0 = len(ctx.failures)
         check_quick_obs(ctx, a, 0, spec, obs, {k: [] for k in CHK})
         return len(ctx.failures) > n0
